@@ -49,7 +49,7 @@ type Monitor struct {
 	CheckOrder     bool
 	// PanicOnSelf: a transaction about to request a lock it holds panics instead of blocking for ever
 	PanicOnSelf bool
-	// yield, if set, is called at lock acquisition and commit points (schedule perturbation)
+	// yield, if set, is called at lock acquisition, commit and abort points (schedule perturbation)
 	yield atomic.Pointer[func(point string)]
 }
 
@@ -224,6 +224,10 @@ func (observer) Committed(op *fstxn.FsTxn, ok bool) {
 
 func (observer) Abort(op *fstxn.FsTxn, dirty uint64) {
 	m := monitorFor(op.Fs)
+	// (a pause point too: nothing has been undone yet and the locks are still held)
+	if y := m.yield.Load(); y != nil {
+		(*y)("abort")
+	}
 	atomic.AddInt64(&m.Aborts, 1)
 	if dirty > 0 {
 		atomic.AddInt64(&m.AbortsModified, 1)
